@@ -131,7 +131,11 @@ fn eval(rep: &mut Report, q: &Query, real: &Real, refs: &Refs, ctxj: &dyn Fn() -
             }
             if let Some(v) = settle(rep, "map_class_fail", q, Ok(g2)) {
                 let s = v.as_ref().map(s_obj);
-                if s != exp_opt { rep.violation("C06 map_class_fail: differs from the class table", json!({"class": name, "expected": exp_opt, "observed": s, "ctx": ctxj()})); }
+                // The `_fail` form distinguishes "no entry" (None) from "entry": where the counterpart IS the name itself the statement ("maps a class
+                // name to its counterpart, or leaves it unchanged when unmapped") cannot tell the two apart, so None and Some(same name) are both accepted.
+                let same = |o: &Option<String>| o.clone().unwrap_or_else(|| name.clone());
+                if s != exp_opt && same(&s) == same(&exp_opt) { rep.count("q.class.fail_form_none_vs_identity (accepted)"); }
+                if same(&s) != same(&exp_opt) { rep.violation("C06 map_class_fail: differs from the class table", json!({"class": name, "expected": exp_opt, "observed": s, "ctx": ctxj()})); }
             }
             if let Some(v) = settle(rep, "map_class_any", q, Ok(g3)) {
                 let s = jstr(v.as_inner());
